@@ -121,6 +121,7 @@ struct Out {
     slice_ops: u64,
     foreign_handle_ops: u64,
     conversions: u64,
+    twin_details: bool,
 }
 
 fn execute(seed: u64, tier: Tier) -> (crate::kernel::run::RunOutcome<Out>, Vec<&'static str>) {
@@ -148,7 +149,21 @@ fn execute(seed: u64, tier: Tier) -> (crate::kernel::run::RunOutcome<Out>, Vec<&
         let mut o = sys::monitor(Out::default);
         let random: Arc<dyn Random> = Arc::new(DefaultRandom::default());
         let jobs: Vec<Job> = problem.jobs.all().to_vec();
-        let actors: Vec<Arc<Actor>> = problem.fleet.actors.to_vec();
+        // one case in ten: a fleet composed through the public constructor in which the first vehicle lists one of its
+        // details twice (two shifts which look the same are two actors all the same)
+        let twin_details = sys::monitor(|| p.chance(0.1));
+        let fleet: Arc<vrp_core::models::problem::Fleet> = if twin_details {
+            let mut vehicles: Vec<Arc<vrp_core::models::problem::Vehicle>> = problem.fleet.vehicles.to_vec();
+            let first = vehicles[0].clone();
+            let mut details = first.details.clone();
+            details.push(details[0].clone());
+            vehicles[0] = Arc::new(vrp_core::models::problem::Vehicle { profile: first.profile.clone(), costs: first.costs.clone(), dimens: first.dimens.clone(), details });
+            Arc::new(vrp_core::models::problem::Fleet::new(problem.fleet.drivers.to_vec(), vehicles, |_| |_| 0))
+        } else {
+            problem.fleet.clone()
+        };
+        sys::monitor(|| o.twin_details = twin_details);
+        let actors: Vec<Arc<Actor>> = fleet.actors.to_vec();
         if jobs.is_empty() || actors.is_empty() {
             return o;
         }
@@ -291,9 +306,9 @@ fn execute(seed: u64, tier: Tier) -> (crate::kernel::run::RunOutcome<Out>, Vec<&
         drop(copies);
         // ------------------------------------------------ registry
         let id_of: BTreeMap<usize, usize> = sys::monitor(|| actors.iter().enumerate().map(|(i, a)| (Arc::as_ptr(a) as usize, i)).collect());
-        let mut registry = Registry::new(&problem.fleet, random.clone());
+        let mut registry = Registry::new(&fleet, random.clone());
         let mut free: BTreeSet<usize> = sys::monitor(|| (0..actors.len()).collect());
-        let mut reg_ctx = RegistryContext::new(&problem.goal, Registry::new(&problem.fleet, random.clone()));
+        let mut reg_ctx = RegistryContext::new(&problem.goal, Registry::new(&fleet, random.clone()));
         let mut ctx_free: BTreeSet<usize> = sys::monitor(|| (0..actors.len()).collect());
         let mut held: Vec<RouteContext> = vec![];
         let n_reg_ops = sys::monitor(|| p.usize(1, n_ops));
@@ -466,7 +481,8 @@ fn execute(seed: u64, tier: Tier) -> (crate::kernel::run::RunOutcome<Out>, Vec<&
         drop(registry);
         drop(tour);
         // ------------------------------------------------ context -> solution: the registry of the solution agrees with its tours
-        {
+        // (on the problem's own fleet only)
+        if !twin_details {
             use vrp_core::construction::heuristics::InsertionContext;
             use vrp_core::models::Solution;
             let environment = Arc::new(Environment::default());
@@ -529,6 +545,7 @@ fn run(seed: u64, tier: Tier) -> CaseRecord {
             rec.count("ops.on_registry_slices", o.slice_ops);
             rec.count("ops.foreign_job_handles", o.foreign_handle_ops);
             rec.count("ops.context_to_solution", o.conversions);
+            rec.count("fleet.first_vehicle_lists_a_detail_twice", o.twin_details as u64);
             rec.count("tour_length_max_sum", o.max_len as u64);
             for (rule, msg) in o.issues {
                 rec.issues.push(IssueRec { prop: "C14".into(), rule, sig: String::new(), msg });
